@@ -6,6 +6,7 @@
     [TM.Gen.Tables.c20_consts], regenerated from sproc/appmonitor.py on every run. *)
 From Coq Require Import ZArith List Bool Sorting.Sorted.
 From TM Require Import Mon.AppMon Mon.AppMonP Gen.Tables.
+From TM Require Import Base.ShapeCanon.
 Import ListNotations.
 Open Scope Z_scope.
 
@@ -209,3 +210,10 @@ Example C20_reconfigure_refills :
   let r := run (P20 1) (init_state 1000 []) ex_reset in
   created 1 (snd r) = 12 /\ st_clock (fst r) = 1001.
 Proof. vm_compute. split; reflexivity. Qed.
+
+(** the functions named by this property's anchors still have the statement skeleton the model was written from
+    (re-extracted from the Python AST on every run, harness/tables_shape.py + harness/shape_pins.json; kept last so that
+    a difference does not stop the theorems above from being checked) *)
+Theorem C20_source_shape : shapes_ok_C20 = true.
+Proof. vm_compute. reflexivity. Qed.
+Print Assumptions C20_source_shape.
